@@ -653,3 +653,85 @@ def flavour_siblings(R, F, fn_pat, key_prefix, why, ignore=r'$^', floor=2):
             R.ob('SIBLINGS', '%s::%s::%s#%d::does-what-the-sized-sibling-does' % (key_prefix, gid.replace('iceoryx2::', ''), flav, idx), not missing,
                  'compared with %s:%s this flavour %s; %s' % (ref.file.rsplit('/', 1)[-1], ref.line, 'makes the same internal calls and branches' if not missing else 'lacks: ' + ', '.join(missing), why), '%s:%s' % (f.file, f.line), f)
     R.floor('payload-flavour siblings (%s)' % key_prefix, n, floor)
+
+
+def accumulator_loop_exits(fn):
+    """Loops that OR-accumulate boolean flags (`acc |= f(i)`): returns a list of (accumulators, early_exit_edges, verdicts) per loop where
+    verdicts[(edge, acc)] tells whether the early exit edge is taken only when `acc` is already true.  An early exit while one of the
+    accumulated flags may still become true on a later iteration makes that flag under-approximate."""
+    nb = len(fn.blocks)
+    succ = {b: fn.succ(b) for b in range(nb)}
+    # accumulators: L = BitOr(L, x)
+    accs = {}
+    for s_ in fn.sites:
+        if s_.i != 'T' and s_.node[0] == 'a' and len(s_.node[1]) == 1 and s_.node[2][0] == 'bin' and s_.node[2][1] == 'BitOr':
+            l = s_.node[1][0]
+            ops = [o for o in s_.node[2][2:4] if o[0] in ('c', 'm') and o[1] == [l]]
+            if ops:
+                accs.setdefault(l, []).append(s_)
+    if not accs:
+        return []
+    out = []
+    # loop of each accumulator site: blocks on a cycle through the site's block
+    done = set()
+    for l, ss in accs.items():
+        b0 = ss[0].b
+        fwd = set()
+        st = list(succ[b0])
+        while st:
+            b = st.pop()
+            if b in fwd:
+                continue
+            fwd.add(b)
+            st.extend(succ[b])
+        if b0 not in fwd:
+            continue
+        rp = {}
+        for b in range(nb):
+            for t in succ[b]:
+                rp.setdefault(t, []).append(b)
+        back = set()
+        st = [b0]
+        while st:
+            b = st.pop()
+            if b in back:
+                continue
+            back.add(b)
+            st.extend(rp.get(b, []))
+        loop = frozenset(fwd & back)
+        if loop in done:
+            continue
+        done.add(loop)
+        in_loop_accs = [a for a, sites in accs.items() if any(x.b in loop for x in sites)]
+        exits = []
+        for b in loop:
+            for t in succ[b]:
+                if t in loop:
+                    continue
+                term = fn.blocks[b]['t']
+                natural = False
+                if term[0] == 'switch':
+                    p = fn.prov_operand(term[1]) if term[1][0] in ('c', 'm') else None
+                    si = fn.switch_info(b) or {}
+                    if 'discr_of' in si:
+                        pp = fn.prov_place(si['discr_of'])
+                        if pp.root[0] == 'call' and re.search(r'Iterator.*::next$|::next$', pp.root[1].callee or ''):
+                            natural = True
+                if not natural:
+                    exits.append((b, t))
+        verdicts = {}
+        for (b, t) in exits:
+            for a in in_loop_accs:
+                known_true = False
+                for sb in loop:
+                    term = fn.blocks[sb]['t']
+                    if term[0] != 'switch' or term[1][0] not in ('c', 'm'):
+                        continue
+                    if _root_local(fn, term[1]) != a:
+                        continue
+                    tt, ff = bool_switch_arms(fn, sb)
+                    if tt is not None and (fn.edge_dominates(sb, tt, b) or (sb == b and tt == t)):
+                        known_true = True
+                verdicts[((b, t), a)] = known_true
+        out.append((in_loop_accs, exits, verdicts, loop))
+    return out
